@@ -50,7 +50,7 @@ def mutate(rng, s):
     return bytes(s)
 
 
-def gen(tier, rng):
+def gen(tier, rng, harness=None):
     lines = []
     n = 1500 if tier == "quick" else 120000
     if tier == "thorough":
